@@ -124,6 +124,7 @@ func c09Families(tier fw.Tier) []docFamily {
 			nil, {"x"}, {" leading space"}, {"trailing space  "}, {"tab\tinside\t"}, {"8:00 - 9:00 looks like an entry"}, {"-1h"},
 			{"", "        extra indentation"}, {"a", "\tb", "  c  "}, {"#tag=\"q\" #t2='x y' #t3=z", "    2020-01-01 (8h!)"}, {"(", ")"}, {"?"}, {"- ?"},
 			{"replacement \ufffd character", "and \ufffd again"}, {"\ufffd"}, {"x \ufffd"}, {"  "}, {" ", "cont"}, {"\t "}, {"", "  x"}, {"100% %s %d"},
+			{"cr\rinside"}, {"\rstarts with cr", "\r"}, {"ends in cr\r"},
 		}
 		shoulds := []string{"", " (8h!)", " (+8h!)", " (0m!)", " (-0h!)", " (90m!)", " (-1h5m!)", "  (480m!)"}
 		fs = append(fs, docFamily{"notation", len(vals) * len(sums) * len(shoulds) * 4, func(i int) (string, []sm.Record, bool) {
@@ -138,6 +139,23 @@ func c09Families(tier fw.Tier) []docFamily {
 			lines := doc.Lines()
 			lines[0] += shoulds[d[2]]
 			return docgen.Join(lines, doc.Layout.EOL, doc.Layout.FinalNL), nil, false
+		}})
+		// dates: the edges of the four-digit year (leading zeros must survive), both separators, month/day edges
+		var dates []string
+		for _, y := range []int{0, 1, 9, 10, 42, 99, 100, 987, 999, 1000, 2020, 9999} {
+			for _, md := range [][2]int{{1, 1}, {2, 28}, {2, 29}, {10, 10}, {12, 31}} {
+				if md[1] == 29 && !sm.IsLeap(y) {
+					continue
+				}
+				dates = append(dates, fmt.Sprintf("%04d-%02d-%02d", y, md[0], md[1]), fmt.Sprintf("%04d/%02d/%02d", y, md[0], md[1]))
+			}
+		}
+		fs = append(fs, docFamily{"dates", len(dates) * 2, func(i int) (string, []sm.Record, bool) {
+			d := dates[i/2]
+			if i%2 == 0 {
+				return d + "\n", nil, false
+			}
+			return d + " (8h!)\nsummary\n    1h\n\n" + dates[(i/2+7)%len(dates)] + "\n    8:00 - 9:00\n", nil, false
 		}})
 		// long documents (9 records) for the CLI leg with several CPUs (parallel parser behind `klog print`)
 		shapes := docgen.FBShapes()
@@ -160,7 +178,7 @@ func init() {
 	fw.Register(&fw.Check{
 		ID:    "C09",
 		Title: "Printing a file yields an equivalent canonical file (round trip, fixed point)",
-		Rule: "all reference-valid documents of the C01 grammar/formatting/value families plus a notation sweep (28 entry literals x 21 summary shapes x 8 should-total spellings x layouts) and 78 nine-record documents printed through the CLI with 1, 2 and 3 CPUs; " +
+		Rule: "all reference-valid documents of the C01 grammar/formatting/value families plus a notation sweep (28 entry literals x 24 summary shapes x 8 should-total spellings x layouts), a date sweep (years 0000..9999 at the edges of each digit count x both separators x month/day edges) and 78 nine-record documents printed through the CLI with 1, 2 and 3 CPUs; " +
 			"a case = one valid document; for each: print, compare with the independently rendered canonical form, re-parse with both parsers, print again",
 		Assumptions: []string{
 			"specmodel.Parse and the independent canonical renderer refPrintLines",
@@ -177,7 +195,7 @@ func init() {
 				if text == "" {
 					continue
 				}
-				c09Text(c, f.name, i, text, f.name == "notation" || f.name == "long" || (c.Tier == fw.Thorough && i%64 == 0) || i%256 == 0)
+				c09Text(c, f.name, i, text, f.name == "notation" || f.name == "long" || f.name == "dates" || (c.Tier == fw.Thorough && i%64 == 0) || i%256 == 0)
 			}
 		},
 		Replay: func(c *fw.Ctx, raw json.RawMessage) {
@@ -219,6 +237,12 @@ func c09Text(c *fw.Ctx, fam string, idx int, text string, viaCLI bool) {
 	}
 	// 2. it is a valid file with the same records (values and notation) for the reference parser …
 	ref2 := sm.Parse(p1)
+	if c09SummaryEndsInCR(ref.Records) && (ref2.Verdict != sm.Valid || canonRef(maskIrregular(ref.Records)) != canonRef(maskIrregular2(ref2.Records, ref.Records))) {
+		// one signature of its own: a summary line that ends in a carriage return cannot be written back with a
+		// line ending after it (CR + LF reads as one CR LF newline)
+		c.Violation("summary-line-ends-in-CR", cs(), fmt.Sprintf("a summary line of the input ends in a carriage return (an ordinary character when no LF follows); printed, it is followed by a newline and reads back without it (or as another line structure):\n%q", p1))
+		return
+	}
 	if ref2.Verdict != sm.Valid {
 		c.Violation("print-invalid", cs(), fmt.Sprintf("the printed text is not a valid file (%v: line %d %s):\n%s", ref2.Verdict, ref2.Line, ref2.Rule, p1))
 		return
@@ -283,4 +307,26 @@ func maskIrregular2(rs, orig []sm.Record) []sm.Record {
 		out[i] = r2
 	}
 	return out
+}
+
+func c09SummaryEndsInCR(rs []sm.Record) bool {
+	ends := func(lines []string) bool {
+		for _, l := range lines {
+			if strings.HasSuffix(l, "\r") {
+				return true
+			}
+		}
+		return false
+	}
+	for _, r := range rs {
+		if ends(r.Summary) {
+			return true
+		}
+		for _, e := range r.Entries {
+			if ends(e.Summary) {
+				return true
+			}
+		}
+	}
+	return false
 }
